@@ -3,17 +3,21 @@
 // Harness for C04: the REAL open-tunnel dispatcher (SessionManager.HandlePacket(TunnelOpen) with the
 // real ServerTunnelHandler, the real conncode.Service, the real BuiltinCloudControl and routing table on
 // memory storage) driven through every cell of
-//   connection identity x presented credential x mapping state x tunnel state at arrival.
+//
+//	connection identity x presented credential x mapping state x tunnel state at arrival.
 //
 // case:  open pl <ok|junk|empty> maps <k> (<id> <listen> <target> <secret|-> <a|i> <rev> <exp>)*
-//             conn <hs 0|1|2> <cid> req <mid|-> <secret|-> <token|-> ts <none | bridge <mid> <served 0|1> | remote <mid>>
-//   maps: the port mappings that exist WHEN THE REQUEST ARRIVES (status active/inactive, revoked, expired).
-//         A bridge / route for mapping <mid> is set up beforehand by a legitimate listen client while that
-//         mapping was active; it is then brought to the listed state (or deleted when not listed).
-//   conn: hs 0 = no handshake, 1 = handshake accepted as client <cid>, 2 = handshake refused.
+//
+//	          conn <hs 0|1|2> <cid> req <mid|-> <secret|-> <token|-> ts <none | bridge <mid> <served 0|1> | remote <mid>>
+//	maps: the port mappings that exist WHEN THE REQUEST ARRIVES (status active/inactive, revoked, expired).
+//	      A bridge / route for mapping <mid> is set up beforehand by a legitimate listen client while that
+//	      mapping was active; it is then brought to the listed state (or deleted when not listed).
+//	conn: hs 0 = no handshake, 1 = handshake accepted as client <cid>, 2 = handshake refused.
+//
 // obs:   ack <none|ok|fail> att <none|src|tgt|fwd> data <0|1> ret <switch|err|nil|pending>
-//   ack  = TunnelOpenAck read on the requesting connection; att = what the bridge (or the other node) holds of
-//   the requester; data = bytes written by the other end became readable on the requester.
+//
+//	ack  = TunnelOpenAck read on the requesting connection; att = what the bridge (or the other node) holds of
+//	the requester; data = bytes written by the other end became readable on the requester.
 package main
 
 import (
@@ -755,7 +759,7 @@ func randomCases(r *vc.Rand, n int) []*caseT {
 		}
 		for j := 0; j < k; j++ {
 			m := mappingT{id: ids[perm[j]], listen: vc.Pick(r, clients), target: vc.Pick(r, clients), secret: vc.Pick(r, secrets), active: true}
-			switch r.Intn(9) {
+			switch r.Intn(16) {
 			case 0:
 				m.revoked, m.active = true, false
 			case 1:
@@ -785,6 +789,48 @@ func randomCases(r *vc.Rand, n int) []*caseT {
 			c.ts, c.tsMid, c.served = "bridge", vc.Pick(r, ids), true
 		case 4:
 			c.ts, c.tsMid = "remote", vc.Pick(r, ids)
+		}
+		if r.Intn(10) < 6 {
+			// mostly-valid: start from a request that is entitled to one of the mappings, then break at most one thing
+			m := c.maps[r.Intn(len(c.maps))]
+			if r.Intn(6) != 0 {
+				for _, x := range c.maps {
+					if x.active && !x.revoked && x.expired != 1 {
+						m = x
+						break
+					}
+				}
+			}
+			c.hs, c.rmid, c.rtok = 1, m.id, ""
+			switch r.Intn(3) {
+			case 0:
+				c.cid, c.rsec = m.listen, ""
+			case 1:
+				c.cid, c.rsec = m.listen, m.secret
+			case 2:
+				c.cid, c.rsec = m.target, m.secret
+			}
+			if c.ts != "none" && r.Intn(5) != 0 {
+				c.tsMid = m.id
+			}
+			switch r.Intn(24) {
+			case 0:
+				c.rsec = "zz"
+			case 1:
+				c.cid = 55
+			case 2:
+				c.hs = 0
+			case 3:
+				c.hs = 2
+			case 4:
+				c.rmid = vc.Pick(r, ids)
+			case 5:
+				c.rtok = "tok"
+			case 6:
+				c.rsec = ""
+			case 7:
+				c.cid = vc.Pick(r, clients)
+			}
 		}
 		if c.pl == "empty" {
 			// an empty payload names the empty tunnel id: no pre-existing tunnel can be addressed
